@@ -233,7 +233,7 @@ func (s *seqCounters) add(seqNr uint32) {
 				nrToDrop++
 			}
 		}
-		if s._nrCounters == s.windowSize {
+		if s._nrCounters == s.windowSize && nrToDrop < s._nrCounters {
 			nrToDrop++
 		}
 		if nrToDrop > 0 {
